@@ -71,14 +71,14 @@ func genMux(seed uint64, n int, maxOps int, demux bool, emit func(interface{})) 
 			continue
 		}
 		if s == 25 {
-			// a stream removed, then 260 other streams added and removed, then the first one added again: it carries on where it stopped
+			// a stream removed, then 1100 other streams added and removed, then the first one added again: it carries on where it stopped
 			sc.Period = 40
 			sc.Ops = append(sc.Ops, muxOp{Op: "add", PID: 0x100, ST: 27, DK: "none"}, muxOp{Op: "setpcr", PID: 0x100}, muxOp{Op: "add", PID: 0x200, ST: 15, DK: "none"}, muxOp{Op: "tables"})
 			for i := 0; i < 3; i++ {
 				sc.Ops = append(sc.Ops, muxOp{Op: "data", PID: 0x200, Len: r.pick(100, 300, 500), Hdr: "pts", AF: "none"})
 			}
 			sc.Ops = append(sc.Ops, muxOp{Op: "remove", PID: 0x200})
-			for i := 0; i < 260; i++ {
+			for i := 0; i < 1100; i++ {
 				sc.Ops = append(sc.Ops, muxOp{Op: "add", PID: 0x300 + i, ST: 15, DK: "none"}, muxOp{Op: "remove", PID: 0x300 + i})
 			}
 			sc.Ops = append(sc.Ops, muxOp{Op: "add", PID: 0x200, ST: 15, DK: "none"}, muxOp{Op: "tables"})
